@@ -46,7 +46,7 @@ MUTANTS = [
     # ---- C03 / C04 / C14 (tm) -------------------------------------------------------------------------------------
     dict(id="tm_set_no_refresh", file=TM, props=["C03"], desc="tm.set() forgets to rebuild the matrix",
          old="        self.TAA[ind] = val\n        self.TAAtoTM()\n        return self\n", new="        self.TAA[ind] = val\n        return self\n"),
-    dict(id="tm_setquat_no_taa", file=TM, props=["C03", "C04"], desc="setQuat does not refresh the six-vector",
+    dict(id="tm_setquat_no_taa", file=TM, props=["C03"], desc="setQuat does not refresh the six-vector",
          old="        self.TM[0:3, 0:3] = R.from_quat(quaternion).as_matrix()\n        self.TMtoTAA()\n", new="        self.TM[0:3, 0:3] = R.from_quat(quaternion).as_matrix()\n"),
     dict(id="tm_setitem_slice_col", file=TM, props=["C03"], desc="__setitem__ with a (3,1) value skips the matrix refresh",
          old="        if isinstance(val, np.ndarray) and val.shape == ((3, 1)):\n            self.TAA[ind] = val\n",
@@ -60,10 +60,10 @@ MUTANTS = [
     dict(id="tm_rpy_order", file=TM, props=["C04"], desc="rpy constructor composes Rz Ry Rx instead of Rx Ry Rz (6-element form)",
          old="            temp_init =  tm([0, 0, 0, initializer_array[3],0, 0])\n            temp_init = temp_init @ tm([0, 0, 0, 0, initializer_array[4], 0])\n            temp_init = temp_init @ tm([0, 0, 0, 0, 0, initializer_array[5]])\n",
          new="            temp_init =  tm([0, 0, 0, 0, 0, initializer_array[5]])\n            temp_init = temp_init @ tm([0, 0, 0, 0, initializer_array[4], 0])\n            temp_init = temp_init @ tm([0, 0, 0, initializer_array[3],0, 0])\n"),
-    dict(id="l2g_wrong_order", file=MR, props=["C04", "C03", "C12"], desc="LocalToGlobal composes rotations in the wrong order",
+    dict(id="l2g_wrong_order", file=MR, props=["C04", "C03"], desc="LocalToGlobal composes rotations in the wrong order",
          old="    rod = so3ToVec(MatrixLog3(rodRefRod @ trod))", new="    rod = so3ToVec(MatrixLog3(trod @ rodRefRod))"),
     # ---- C12 -------------------------------------------------------------------------------------------------------
-    dict(id="wrench_changeframe_no_transpose", file=WR, props=["C12", "C11"], desc="Wrench.changeFrame forgets the transpose of the adjoint",
+    dict(id="wrench_changeframe_no_transpose", file=WR, props=["C12"], desc="Wrench.changeFrame forgets the transpose of the adjoint",
          old="        self.data = frame_transition.adjoint().T @ self.data", new="        self.data = frame_transition.adjoint() @ self.data"),
     dict(id="screw_add_mixed_frames", file=SC, props=["C12"], desc="Screw.__add__ skips the frame change of the right operand",
          old="                local_frame_other = other_object.copy().changeFrame(self.frame_applied)\n                return Screw(self.data + local_frame_other.data, self.frame_applied.copy())",
